@@ -31,7 +31,7 @@ CTORS = ["rows", "pyrows", "flat", "flat_nplens", "flatlist", "shape_tuple", "ra
 FLOOR_TAGS = ["ctor:" + c for c in CTORS] + ["kind:b", "kind:i", "kind:u", "kind:f", "v:small", "v:extreme", "v:nonfinite",
                                              "reject", "saveload", "matrix-roundtrip", "norows", "allempty", "e-first", "e-last", "e-mid", "e-consec", "e-none", "big-repr"]
 FLOOR_MONITORS = ["c01:readback", "c01:geometry", "c01:reject", "inv:ragged"]
-N_RANDOM = {"quick": 2500, "thorough": 120000}
+N_RANDOM = {"quick": 12500, "thorough": 120000}
 
 
 def setup(lib):
